@@ -34,9 +34,25 @@ impl StateCheck for C08 {
         if comps.data.is_empty() {
             return;
         }
+        check_comps(&comps, "", &["PENINSULA", "SKEW", "SKEW+COGEN"], out);
+        // "whatever components the building has": component sets assembled through the library (part of the file read, one
+        // component pushed), evaluated as they are and after normalizing again
+        if text.lines().count() <= 6 {
+            for v in crate::hist::variants_raw(text, 3) {
+                if let Ok(c) = &v.comps {
+                    out.regime("history_of_calls");
+                    check_comps(c, &format!("; {}", v.desc), &["PENINSULA"], out);
+                }
+            }
+        }
+    }
+}
+
+fn check_comps(comps: &cteepbd::Components, how: &str, sets: &[&str], out: &mut Out) {
+    {
         let has_out = comps.data.iter().any(|c| c.is_out());
         let has_aux = comps.data.iter().any(|c| c.is_aux());
-        for fs in ["PENINSULA", "SKEW", "SKEW+COGEN"] {
+        for fs in sets.iter().copied() {
             let f = subj::fset(fs);
             let stripped = match catch(|| f.clone().strip(&comps)) {
                 Ok(s) => s,
@@ -45,7 +61,7 @@ impl StateCheck for C08 {
                     if has_out {
                         feats.push("output_line_present");
                     }
-                    out.viol("strip_does_not_panic", &feats, format!("factors={fs}"), format!("panic: {p}"), "a simplified factor set");
+                    out.viol("strip_does_not_panic", &feats, format!("factors={fs}{how}"), format!("panic: {p}"), "a simplified factor set");
                     continue;
                 }
             };
@@ -53,7 +69,7 @@ impl StateCheck for C08 {
                 out.nontrivial = true;
             }
             for (k, lm) in [(0.0f32, false), (1.0, true)] {
-                let cfg = format!("factors={fs} k_exp={k} load_matching={lm}");
+                let cfg = format!("factors={fs} k_exp={k} load_matching={lm}{how}");
                 out.evals += 2;
                 let full = subj::eval(&comps, f, k, 1.0, lm);
                 let simp = match catch(|| subj::eval(&comps, &stripped, k, 1.0, lm)) {
